@@ -538,6 +538,56 @@ package hclsyntax
 //@ ensures samePeeker: p.peeker == old(p.peeker)
 //@ ensures srcBytes: forall q *byte :: { deref(q) } existed(q) ==> deref(q) == old(deref(q))
 //@ ensures accept: ret0 != nil && !lastAttrErr ==> !hasErr(ret1)
+// (C15, partial results stay usable) when no body is produced the diagnostics say why: the caller
+// substitutes a placeholder body only when there is an error.
+//@ ensures nilErr: ret0 == nil ==> hasErr(ret1)
+
+// ---- unknown operands of the logical operators (unit U14, C05) ----
+// verif:unit U14 props=C05
+// C05: a result computed from unknown operands must be consistent with every concrete evaluation.
+// The short-circuit hooks of || and && (the two function literals in the initialiser of OpLogicalOr /
+// OpLogicalAnd: init$1 and init$2 in declaration order) decide a result without calling the operator
+// implementation. For every pair of operands:
+//  - a KNOWN forced result is the operator's controlling value (true for ||, false for &&) and is
+//    forced by an operand that is itself known and has that value - never by an unknown operand, so
+//    it is the result of every concrete evaluation as well;
+//  - an UNKNOWN forced result is a boolean (refined not-null, which every error-free concrete result
+//    is) and is produced only when an operand is unknown (the converse clause of C05: no unknown
+//    from known operands);
+//  - the diagnostics handed back are those of one of the two operands.
+// (isTrueVal / isFalseVal are what Value.True / Value.False report; go-cty's False is "not True".)
+// verif:func init$1
+//@ nosafety
+//@ assigns nothing
+//@ ensures known: ret0 != cty.NilVal && isKnownVal(ret0) ==> isTrueVal(ret0) && ((isKnownVal(lhs) && isTrueVal(lhs)) || (isKnownVal(rhs) && isTrueVal(rhs)))
+//@ ensures unknown: ret0 != cty.NilVal && !isKnownVal(ret0) ==> typeOf(ret0) == cty.Bool && refNotNull(ret0) && (!isKnownVal(lhs) || !isKnownVal(rhs))
+//@ ensures bothKnown: isKnownVal(lhs) && isKnownVal(rhs) && !isTrueVal(lhs) && !isTrueVal(rhs) ==> ret0 == cty.NilVal
+//@ ensures side: ret0 != cty.NilVal ==> ret1 === lhsDiags || ret1 === rhsDiags
+// verif:func init$2
+//@ nosafety
+//@ assigns nothing
+//@ ensures known: ret0 != cty.NilVal && isKnownVal(ret0) ==> isFalseVal(ret0) && ((isKnownVal(lhs) && isFalseVal(lhs)) || (isKnownVal(rhs) && isFalseVal(rhs)))
+//@ ensures unknown: ret0 != cty.NilVal && !isKnownVal(ret0) ==> typeOf(ret0) == cty.Bool && refNotNull(ret0) && (!isKnownVal(lhs) || !isKnownVal(rhs))
+//@ ensures bothKnown: isKnownVal(lhs) && isKnownVal(rhs) && !isFalseVal(lhs) && !isFalseVal(rhs) ==> ret0 == cty.NilVal
+//@ ensures side: ret0 != cty.NilVal ==> ret1 === lhsDiags || ret1 === rhsDiags
+
+// ---- a block always has a body (unit U11h, C15) ----
+// verif:unit U11h props=C15
+// C15: results are non-nil and usable even for damaged input. ParseBody always returns a body; the
+// one-line form returns none only together with an error (nilErr above) - which is exactly the
+// condition under which finishParsingBodyBlock puts a placeholder body in (schema application and
+// walking dereference Block.Body). Not proved: the placeholder step itself in finishParsingBodyBlock
+// (facts about diagnostics do not survive its calls of parser methods, which carry no write frame).
+// verif:func (*parser).ParseBody
+//@ nosafety nil panic assert
+//@ requires p.peeker != nil && len(p.peeker.IncludeNewlinesStack) >= 1
+//@ ensures depth: len(p.peeker.IncludeNewlinesStack) == old(len(p.peeker.IncludeNewlinesStack))
+//@ ensures samePeeker: p.peeker == old(p.peeker)
+//@ ensures srcBytes: forall q *byte :: { deref(q) } existed(q) ==> deref(q) == old(deref(q))
+//@ ensures body: ret0 != nil
+//@ loopall invariant p.peeker == old(p.peeker) && len(p.peeker.IncludeNewlinesStack) == atentry(len(p.peeker.IncludeNewlinesStack))
+//@ loopall invariant srcBytes: forall q *byte :: { deref(q) } existed(q) ==> deref(q) == old(deref(q))
+
 
 // verif:unit U15 props=C06
 // For expressions: the marks of the collection value are on the result on every path; the only
